@@ -1,18 +1,27 @@
 #!/usr/bin/env python3
-"""Run every registered quick (or thorough) check on the current tree; print exit codes and times."""
+"""Run every registered quick (or thorough) check on the current tree; print exit codes and times.
+usage: run_all.py [quick|thorough] [jobs]"""
 import json, subprocess, sys, time, os
+from concurrent.futures import ThreadPoolExecutor
 HERE = os.path.dirname(os.path.dirname(os.path.abspath(__file__)))
 tier = sys.argv[1] if len(sys.argv) > 1 else "quick"
+jobs = int(sys.argv[2]) if len(sys.argv) > 2 else 1
 m = json.load(open(os.path.join(HERE, "MANIFEST.json")))
-bad = 0
-for c in m["checks"]:
+
+
+def one(c):
     cmd = c["quick_cmd"] if tier == "quick" else c["thorough_cmd"]
     t = time.time()
     p = subprocess.run(cmd, shell=True, cwd=HERE, stdout=subprocess.PIPE, stderr=subprocess.STDOUT, text=True)
-    dt = time.time() - t
-    last = [l for l in p.stdout.splitlines() if l.strip()][-1] if p.stdout.strip() else ""
-    print("%s exit=%d %.1fs  %s" % (c["property_id"], p.returncode, dt, last[:110]))
-    if p.returncode != 0:
-        bad += 1
-        print("\n".join(p.stdout.splitlines()[:12]))
+    return c, p, time.time() - t
+
+
+bad = 0
+with ThreadPoolExecutor(max_workers=jobs) as ex:
+    for c, p, dt in ex.map(one, m["checks"]):
+        last = [l for l in p.stdout.splitlines() if l.strip()][-1] if p.stdout.strip() else ""
+        print("%s exit=%d %.1fs  %s" % (c["property_id"], p.returncode, dt, last[:110]), flush=True)
+        if p.returncode != 0:
+            bad += 1
+            print("\n".join(p.stdout.splitlines()[:12]), flush=True)
 print("non-zero:", bad)
